@@ -25,7 +25,7 @@ TECHNIQUE = ("Lean 4 refinement proofs (hand models of the code paths of every c
              "association list / set, invariants by induction over operation histories) + lock-step correspondence runs of "
              "the real code against the std:: containers and the compiled Lean models under ASan/UBSan, with int and with a "
              "non-trivially-copyable instrumented element type")
-LEVEL_TEXT = ("Machine-checked (Props/C20.lean, 44 theorems, axioms propext/Classical.choice/Quot.sound at most): "
+LEVEL_TEXT = ("Machine-checked (Props/C20.lean, 65 theorems, axioms propext/Classical.choice/Quot.sound at most): "
               "XalanVector - every operation history inside std::vector's preconditions makes no out-of-bounds / raw-cell / "
               "stale-iterator access, yields the std contents and size<=allocation; the three storage primitives are the "
               "placement discipline (construct only cell `size`, assign only below `size`, destroy only the last cell); "
@@ -40,11 +40,22 @@ LEVEL_TEXT = ("Machine-checked (Props/C20.lean, 44 theorems, axioms propext/Clas
               "chars ++ [0], m_size) and std::u16string result. XalanObjectCache - under the release-what-you-hold contract "
               "no object is handed out twice and every object comes back reset. XalanDOMStringPool/HashTable - get returns "
               "the requested characters, equal requests the same object, pool = distinct strings in first-request order. "
-              "XalanBitmap - set/clear/toggle change exactly the addressed bit (complete byte table by decide). The models "
+              "XalanBitmap - set/clear/toggle change exactly the addressed bit (complete byte table by decide). Event form: "
+              "every XalanVector history logs its copy constructions, assignments, destructor calls and buffer releases "
+              "(VectorTrace.lean, same code paths, projection theorem) and the log passes the placement discipline - each "
+              "cell constructed exactly once before use and destroyed exactly once; the same for deque, list and map "
+              "elements (ElemTrace.lean). XalanList at pointer level (PList.lean, heap of value/prev/next nodes): the "
+              "writes of constructNode / freeNode keep the doubly linked ring and the LIFO free chain and are the node-"
+              "sequence edits of XList.lean. const XalanDOMChar* overloads and the compare / equals / ASCII-case-insensitive "
+              "family against lexicographic order and equality. Bucket capacities, rehash points (41st/88th/188th insertion "
+              "-> 64/139/299 buckets), 1.6x growth and deque block capacities as theorems. The models "
               "are tied to the working tree by replaying generated request logs on the real code (header templates and the "
               "freshly built libxalan-c, ASan+UBSan, lock-step with std::vector/map/set/deque/list/u16string/vector<bool>) and "
               "on the compiled Lean models, comparing the full observable dump after every request, including bucket / "
-              "stale-pointer / free-list counters, list block counts and the live-instance count of the element class.")
+              "stale-pointer / free-list counters, the sum of bucket capacities, list block counts, the live-instance count "
+              "of the element class and, per request, the number of copy-constructor / assignment / destructor calls the "
+              "container made (compared with the event counts of the models). The floating-point size computations "
+              "(1.6*n, 1.6*n+0.5, 0.75*n) are compared with the models' integer formulas for all n <= 3 000 000.")
 LEVEL_NOTE = ("Trusted: Lean kernel (+ leanchecker in the thorough tier); the hand transcription of XalanVector/Map/Set/Deque/"
               "List/ObjectCache.hpp, XalanDOMString.{hpp,cpp}, XalanDOMStringPool/HashTable.cpp, XalanBitmap.{hpp,cpp} (checked "
               "by the correspondence run, bounded by generator coverage); harnesses, generators and python references. "
@@ -52,9 +63,10 @@ LEVEL_NOTE = ("Trusted: Lean kernel (+ leanchecker in the thorough tier); the ha
               "class), the prev/next pointer surgery of XalanList (sequence edits in the model; real code under ASan), "
               "capacities of bucket vectors and of deque blocks, memory-manager failure paths, the char* (transcoding) "
               "overloads of XalanDOMString, the XALAN_OBJECT_CACHE_KEEP_BUSY_LIST variant of XalanObjectCache (not compiled), "
-              "the arena allocator behind XalanDOMStringPool. Partial theorems: list splice/swap histories (single-step "
-              "lemmas and correspondence only); no event-trace (construct/destroy log) theorem - the balance is expressed by "
-              "the checked primitives and observed as the live-instance count.")
+              "the arena allocator behind XalanDOMStringPool. Partial theorems: list splice/swap histories (the two halves "
+              "of splice are proved at ring level, the composed heap-level splice / range splice / swap only run in the "
+              "correspondence); deque and list event histories over the primitive alphabets push/pop/clear and "
+              "insert/erase/clear, map events per operation; invariant 'bucket size <= bucket capacity' observed, not proved.")
 DESIGN_REF = "DESIGN.md section 5, C20; design/C20.md"
 
 THEOREMS = [
@@ -65,6 +77,21 @@ THEOREMS = [
     "XalanModel.Props.C20.vector_resizeSelf_refines",
     "XalanModel.Props.C20.vector_alias_as_written_counterexample",
     "XalanModel.Props.C20.vector_placement_discipline",
+    "XalanModel.Props.C20.vector_trace_projection",
+    "XalanModel.Props.C20.vector_events_step",
+    "XalanModel.Props.C20.vector_events_alias",
+    "XalanModel.Props.C20.vector_events_history",
+    "XalanModel.Props.C20.vector_events_init",
+    "XalanModel.Props.C20.deque_events_history",
+    "XalanModel.Props.C20.list_events_history",
+    "XalanModel.Props.C20.map_events",
+    "XalanModel.Props.C20.map_bucket_push_has_room",
+    "XalanModel.Props.C20.map_bucket_pushCap",
+    "XalanModel.Props.C20.map_compactCap",
+    "XalanModel.Props.C20.map_default_rehash_points",
+    "XalanModel.Props.C20.map_rehash_bucket_count",
+    "XalanModel.Props.C20.vector_push_capacity",
+    "XalanModel.Props.C20.deque_block_capacity",
     "XalanModel.Props.C20.vector_copy_backward_shift_right",
     "XalanModel.Props.C20.vector_copy_forward_shift_left",
     "XalanModel.Props.C20.vector_insert_forward_copy_counterexample",
@@ -84,6 +111,10 @@ THEOREMS = [
     "XalanModel.Props.C20.list_erase_refines",
     "XalanModel.Props.C20.list_clear_refines",
     "XalanModel.Props.C20.list_history_partial",
+    "XalanModel.Props.C20.plist_ring_link",
+    "XalanModel.Props.C20.plist_ring_unlink",
+    "XalanModel.Props.C20.plist_constructNode_refines",
+    "XalanModel.Props.C20.plist_freeNode_refines",
     "XalanModel.Props.C20.set_step_refines",
     "XalanModel.Props.C20.objcache_get_refines",
     "XalanModel.Props.C20.objcache_release_put_refines",
@@ -96,6 +127,10 @@ THEOREMS = [
     "XalanModel.Props.C20.domstring_step_refines",
     "XalanModel.Props.C20.domstring_refines",
     "XalanModel.Props.C20.domstring_new_inv",
+    "XalanModel.Props.C20.domstring_pointer_overloads",
+    "XalanModel.Props.C20.domstring_compare_spec",
+    "XalanModel.Props.C20.domstring_equals_spec",
+    "XalanModel.Props.C20.domstring_compare_npos_as_written_counterexample",
     "XalanModel.Props.C20.domstring_erase_range_as_written_counterexample",
     "XalanModel.Props.C20.domstring_resize_as_written_counterexample",
     "XalanModel.Props.C20.domstring_substr_as_written_counterexample",
@@ -130,6 +165,9 @@ CORPUS = [
     # default-parameter map / set grown through the three first rehash points (41st, 88th, 188th distinct insertion)
     ("map", ["map ins 0 %d %d" % (100 + 2 * i, i) for i in range(190)] + ["map find 0 180", "map erase 0 274", "map find 0 476"]),
     ("set", ["set ins 0 %d" % (100 + 2 * i) for i in range(190)] + ["set count 0 180", "set erase 0 274", "set count 0 476"]),
+    ("map", ["arith 3000000"]),
+    ("cmp", ["cmp compare 97.98 97.98", "cmp compare 97.98 97.98.0.99", "cmp comparesub 97.98.99 0 2 97.98 npos",
+             "cmp eqi 65.98 97.66", "cmp cmpi 65.98.99 97.66", "cmp cmpi 97 66", "cmp equals - -"]),
     ("oc", ["oc get 0", "oc put 0 5", "oc get 1", "oc release 0", "oc get 2", "oc put 2 7", "oc release 1", "oc release 2", "oc get 0",
             "oc get 3"]),
     ("pool", ["pool new 0 3", "pool get 0 1.2", "pool get 0 2.1", "pool get 0 1.2", "pool get 0 -", "pool get 0 7", "pool get 0 1.2.3",
@@ -141,7 +179,10 @@ CORPUS = [
 ]
 
 
-def run_stream(harness, model, seqs, workdir, tag, env=None, timeout=120):
+COUNTS = re.compile(r" C=\d+ A=\d+ D=\d+ N=\d+")
+
+
+def run_stream(harness, model, seqs, workdir, tag, env=None, timeout=120, strip_counts=False):
     """seqs: list of op lists (one kind per stream).  The model is run once; the harness is restarted after a crash
     with the sequences that follow the crashed one.  Returns (results, leaked, model_lines_by_seq) with results[si] =
     (status, first_bad_index_in_ops, impl_line, model_line), status in ok|std|model|crash."""
@@ -156,6 +197,9 @@ def run_stream(harness, model, seqs, workdir, tag, env=None, timeout=120):
     if env:
         e.update(env)
     il, ml, irc, mrc, ierr, merr = common.run_pair([harness], [model], req, impl_env=e, timeout=timeout)
+    if strip_counts:
+        # the int build cannot count element-object calls: compare without the model's C/A/D/N prediction
+        ml = [COUNTS.sub("", l) for l in ml]
     # split model lines per sequence
     mseq = []
     pos = 0
@@ -267,6 +311,9 @@ def features(kind, mlines):
                 f.add("spare-capacity")
     elif kind == "vec":
         f.add("vec")
+    elif kind == "cmp":
+        if any(l.startswith("r=0") for l in mlines) and any(l.startswith("r=-1") or l.startswith("r=1") for l in mlines):
+            f.add("equal-and-unequal")
     elif kind == "oc":
         ids = [l.split()[0] for l in mlines if l.startswith("r=")]
         if len(ids) != len(set(ids)):
@@ -298,19 +345,19 @@ class Runner:
                                           extra=["-DNDEBUG"]) if with_string else None
 
     def harness(self, kind):
-        return self.h_str if kind in ("str", "bmp", "pool") else self.h_cont
+        return self.h_str if kind in ("str", "bmp", "pool", "cmp") else self.h_cont
 
     elem = False   # which element type the container streams currently use (toggled by run(ctx))
 
     def run(self, kind, seqs, tag, elem=None):
         if elem is None:
             elem = self.elem and kind in ("vec", "map", "deq", "lst")
-        env = {"ASAN_OPTIONS": "detect_leaks=0:abort_on_error=0"} if kind in ("str", "bmp", "pool") else None
+        env = {"ASAN_OPTIONS": "detect_leaks=0:abort_on_error=0"} if kind in ("str", "bmp", "pool", "cmp") else None
         if elem:
             return run_stream(self.h_elem, self.model, seqs, self.work, tag + "_elem", env,
                               timeout=(900 if self.ctx.thorough else 30) if len(seqs) > 1 else 3)
         # a hang (e.g. a corrupted list that never reaches end()) is cut off and treated like a crash
-        return run_stream(self.harness(kind), self.model, seqs, self.work, tag, env,
+        return run_stream(self.harness(kind), self.model, seqs, self.work, tag, env, strip_counts=True,
                           timeout=(900 if self.ctx.thorough else 30) if len(seqs) > 1 else 3)
 
     def shrink(self, kind, ops, want, wanttag):
@@ -432,6 +479,7 @@ def run(ctx):
         "str": (1500, 50) if not T else (20000, 150),
         "bmp": (300, 40) if not T else (4000, 120),
         "oc": (300, 40) if not T else (4000, 120),
+        "cmp": (300, 40) if not T else (4000, 100),
         "pool": (400, 60) if not T else (5000, 200),
     }
     gens = {
@@ -443,6 +491,7 @@ def run(ctx):
         "lst": lambda: G.gen_lst(r, plan["lst"][1]),
         "bmp": lambda: G.gen_bmp(r, plan["bmp"][1]),
         "oc": lambda: G.gen_oc(r, plan["oc"][1]),
+        "cmp": lambda: G.gen_cmp(r, plan["cmp"][1]),
         "pool": lambda: G.gen_pool(r, plan["pool"][1]),
         "str": lambda: G.gen_str(r, plan["str"][1], defects=(nbox[0] % 5 == 0 and nbox[0] < 1500)),
     }
@@ -454,9 +503,9 @@ def run(ctx):
     agree = [True]
     unrun = [0]
     total_leak = 0
-    kinds = ["vec", "map", "set", "deq", "lst", "oc", "str", "bmp", "pool"]
+    kinds = ["vec", "map", "set", "deq", "lst", "oc", "str", "bmp", "pool", "cmp"]
     if nolib:
-        kinds.remove("str"); kinds.remove("bmp"); kinds.remove("pool")
+        kinds.remove("str"); kinds.remove("bmp"); kinds.remove("pool"); kinds.remove("cmp")
         ctx.oblige("XalanDOMString correspondence was run (VERIF_C20_NOLIB unset)", "correspondence", False,
                    "VERIF_C20_NOLIB=1 is for mutation trials only")
     for kind in kinds:
